@@ -2,7 +2,6 @@
 
 use crate::cell::{compile, reference_run};
 use crate::embed::*;
-use crate::judge::judge;
 use crate::plan::RunSpec;
 use crate::workload::Workload;
 use serde::{Deserialize, Serialize};
@@ -60,8 +59,8 @@ pub fn execute(r: &Replay) -> ReplayOutcome {
     } else {
         None
     };
-    let res = run_once(&mk, Source::Trace(trace.clone()), &spec.opts);
-    let j = judge(w, reference.as_ref(), &res, spec.liveness_due);
+    let crate::cell::Evaluated { result: res, judgement: j } =
+        crate::cell::evaluate(w, &mk, reference.as_ref(), spec, Source::Trace(trace.clone()));
     match j.violations.iter().find(|v| v.oracle == r.oracle) {
         Some(v) => ReplayOutcome::Reproduced(v.clone()),
         None => ReplayOutcome::NotReproduced(format!(
